@@ -616,7 +616,8 @@ pub fn gen_for(suite: &str, tier: &str, rng: &mut Rng, emit: &mut dyn FnMut(Stri
             // calendar enumerations: every nth-weekday selector and every week number on the days
             // where month lengths, leap rules and ISO year boundaries matter
             let wd = ["Mo", "Tu", "We", "Th", "Fr", "Sa", "Su"];
-            let special_years = [1900, 2000, 2023, 2024, 2100, 2400, 9999];
+            // 2004 and 2032: leap years starting on a Thursday (53 ISO weeks although they do not END on a Thursday); 2020, 2026: long years ending on a Thursday
+            let special_years = [1900, 2000, 2004, 2020, 2023, 2024, 2026, 2032, 2100, 2400, 9999];
             for y in special_years {
                 let mut days: Vec<i64> = (ymd(y, 2, 1)..=ymd(y, 3, 1)).collect();
                 days.extend(ymd(y, 12, 22)..=ymd(y, 12, 31));
@@ -630,9 +631,10 @@ pub fn gen_for(suite: &str, tier: &str, rng: &mut Rng, emit: &mut dyn FnMut(Stri
                         }
                     }
                 }
-                for wk in [1, 2, 51, 52, 53] {
+                for wk in ["1", "2", "51", "52", "53", "01-53/2", "02-53/3", "52-01", "53-02/2"] {
                     let e = enc(&format!("week {wk} 10:00-12:00"));
-                    for d in (ymd(y, 12, 20)..=ymd(y, 12, 31)).chain(ymd(y, 1, 1)..=ymd(y, 1, 12)) {
+                    let next_january = if y < 9999 { ymd(y + 1, 1, 1)..=ymd(y + 1, 1, 12) } else { 0..=-1 };
+                    for d in (ymd(y, 12, 20)..=ymd(y, 12, 31)).chain(ymd(y, 1, 1)..=ymd(y, 1, 12)).chain(next_january) {
                         emit(format!("c01.sched {d} - {e}"));
                     }
                 }
